@@ -234,7 +234,17 @@ macro_rules! harness {
                     if !v.is_empty() {
                         break;
                     }
-                    let _ = st.history.is_consistent();
+                    // a single server applying requests atomically is a linearizable register when
+                    // the network does not redeliver requests
+                    let consistent = st.history.is_consistent();
+                    if ns == 1 && sc.net != "dup" {
+                        c.inc("single_copy_histories_checked");
+                        if !consistent && v.is_empty() {
+                            v.push(Violation::new("C08", "rejects-consistent:single-copy", format!("the history of a single-copy register system is rejected: {:?}", st.history)));
+                        }
+                    } else if !consistent {
+                        c.inc("probe_inconsistent_history_reached");
+                    }
                     let mut acts: Vec<Act> = Vec::new();
                     model.actions(&st, &mut acts);
                     let mut eff: BTreeMap<String, (Act, stateright::actor::ActorModelState<A, H>)> = BTreeMap::new();
